@@ -349,3 +349,30 @@ def replay(ctx, path):
     else:
         raise vlib.Infra("mutation-campaign deaths are replayed by re-running the tier with the same seed")
     return ctx.finish(rule="replay of one recorded violation", evaluations=1, distinct_nontrivial=1)
+
+
+MANIFEST = {
+    "engine": "serial",
+    "spec": "spec/Serialization.tla",
+    "engine_text": "Serialization.tla (abstract objects, documents, Encode/Decode of the JSON and table formats and of distribution "
+                   "configurations, fault actions, contract invariants), SerializationTrace.tla (trace validation); Go driver "
+                   "harness/cmd/serial (children processes with a step journal)",
+    "technique": "TLA+ contract of encoders/decoders model-checked by TLC (RoundTrip, Repacked, FaultSafe); every state of the model "
+                 "(object x format x faults) replayed on the real encoder/decoder for every element type; recorded real encodings "
+                 "validated by a TLC trace specification; seeded byte-level mutation",
+    "text": "TLC enumerates scalars (bare/real with gradient and Hessian), dense/sparse vectors and matrices (all zero patterns of small "
+            "shapes, ten value atoms incl. -0, subnormal, +-max, type-bound integers; identity/T/Slice/Slice.T/T.Slice views of a larger "
+            "parent; vector slices) and trees of distribution families, checks on the model that Decode(Encode(x)) is the denotation of x, "
+            "that a view is written re-packed and that every structurally damaged document decodes to an error or a well-formed object, "
+            "and prints each state as a case with the demanded outcome class. The driver builds the real object for all 16 scalar / 9 "
+            "container element types, encodes with json.Marshal / Export / ExportConfig, damages the real bytes as the case says, decodes "
+            "into a fresh object (UnmarshalJSON / Import / ImportConfig) and compares bit patterns, dimensions, the iterator's non-zero "
+            "set and derivatives, or requires error-or-wellformed (no panic in decoder, Dims/At/iteration/String/Table/re-encoding). "
+            "Library crashes that kill the process are attributed to the journalled step. Bounded model checking plus conformance, "
+            "not a proof for unbounded sizes or arbitrary byte strings.",
+    "note": "Trusted: TLC, CommunityModules Json, strconv/encoding/json of Go, the driver's atom<->value table and generic JSON/table "
+            "parsing. Distribution parameters are one valid set per family (driver table); mixtures/HMMs/categorical/binomial store "
+            "exp() of log-scale parameters and are compared with 1e-12 relative tolerance, the constrained HMM (iterative "
+            "re-normalisation) with 1e-7. Bounds are echoed in evidence (coverage.bounds).",
+    "design_ref": "DESIGN.md section 5 (C18), section 4 (Serialization.tla), section 3.1 (crash containment)",
+}
